@@ -10,7 +10,7 @@ from ..astutil import cond_terms, inside, norm_cmp
 from ..core import AnalysisError, const_value, walk_own
 from ..defuse import DefUse, Terms, show, walk_term
 from ..defuse import key as tkey
-from ..tutil import apply_partials, bound_args, lin
+from ..tutil import EvUnknown, apply_partials, bound_args, ev_term, lin
 
 EXPLANATION = (
     "Static analysis of parsers.pin_to_tsv.convert_line_pin_to_tsv / "
@@ -173,12 +173,28 @@ def _is_valid(ctx, f):
     loops = [n for n in walk_own(f.node) if isinstance(n, ast.For)]
     CHAIN = ("call", "itertools.chain",
              (("list", (NEXT,)), ("param", p_in)), ())
-    loops = [n for n in loops if T.of(n.iter) in (("param", p_in), CHAIN)]
+    def line_source(t):
+        """(element term, first index) of the accepted loop forms"""
+        if t in (("param", p_in), CHAIN):
+            return ("elem", t), None
+        if t[0] == "call" and t[1] == "builtins.enumerate" and \
+                t[2][:1] == (("param", p_in),):
+            st = dict(t[3]).get("start", t[2][1] if len(t[2]) > 1
+                                else ("const", 0))
+            if st[0] == "const" and isinstance(st[1], int):
+                return ("elem", ("param", p_in)), st[1]
+        return None
+
+    loops = [n for n in loops if line_source(T.of(n.iter)) is not None]
     ctx.require(len(loops) == 1, f"{f.qual}: loop over the remaining lines "
                 "not found")
     lp = loops[0]
     IT = T.of(lp.iter)
-    LINE = ("elem", IT)
+    LINE, START = line_source(IT)
+    n_next = len([n for n in walk_own(f.node) if isinstance(n, ast.Call)
+                  and T.of(n) == NEXT and not inside(n, lp)])
+    ctx.require(n_next in (1, 2), f"{f.qual}: {n_next} lines are read "
+                "before the loop; rule C19b needs re-reading")
     tn = cfg.node_of(trues[0]).id
     ok = cfg.every_path_passes(cfg.entry.id, tn, {cfg.node_of(lp).id}) and \
         not inside(trues[0], lp)
@@ -203,29 +219,87 @@ def _is_valid(ctx, f):
 
     W_HDR = width(NEXT)
     inl = [r for r in falses if inside(r, lp)]
-    ok_in = any(len(cs) == 1 and mismatch(cs[0], width(LINE), W_HDR)
-                for cs in (conds(r, lp) for r in inl))
+
+    def rejected_in_loop(wline, dd_line, k):
+        def atoms(t):
+            if t == ("idx", ("param", p_in)):
+                return (START or 0) + k
+            if t == ("mcall", LINE, "startswith",
+                     (("const", "DefaultDirection"),), ()):
+                return dd_line
+            if t == width(LINE):
+                return wline
+            if t == W_HDR:
+                return 5
+            raise KeyError(t)
+        for r in inl:
+            if all(bool(ev_term(T.of(t), atoms)) == o
+                   for t, o in cfg.necessary_conditions(r)
+                   if inside(t, lp)):
+                return True
+        return False
+
+    bad = []
+    try:
+        for k in (0, 1, 4):
+            for wl in (4, 5, 6):
+                got = rejected_in_loop(wl, False, k)
+                if got != (wl != 5):
+                    bad.append({"pass": k, "fields": wl, "header": 5,
+                                "rejected": got})
+    except (EvUnknown, KeyError) as e:
+        bad.append(f"a rejection in the loop depends on {str(e)[:80]}")
+    ok_in = not bad and bool(inl)
     ctx.check(ok_in, "C19b-mismatch-rejected", f,
-              "a line whose field count differs from the header's is "
-              "rejected",
-              "in the loop, False is returned under "
-              f"{[[show(c, 100) for c in conds(r, lp)] for r in inl]}",
-              node=lp)
+              "a line is rejected iff its field count differs from the "
+              "header's (9 valuations)",
+              f"deviates: {bad[:3]}", node=lp)
     ctx.check(ok_in, "C19b-same-width-measure", f,
               "header and every further line are measured by splitting on "
               "the same column separator",
               "the widths compared in the loop are not len(x.split("
               f"{p_sep})) of the line and of the header", node=lp)
-    DD = ("mcall", NEXT, "startswith", (("const", "DefaultDirection"),), ())
-    dd = [r for r in falses if (DD, True) in conds(r)]
+    def DD(x):
+        return ("mcall", x, "startswith", (("const", "DefaultDirection"),),
+                ())
+
+    if n_next == 2:
+        dd = [r for r in falses if (DD(NEXT), True) in conds(r)]
+        why = "no rejection of a DefaultDirection second line"
+    else:
+        # the loop's first pass sees the second line: a DefaultDirection
+        # line there (with the right number of fields) must be rejected
+        def atoms(t):
+            if t == ("idx", ("param", p_in)):
+                return START or 0
+            if t == DD(LINE):
+                return True
+            if t == width(LINE):
+                return 5
+            if t == W_HDR:
+                return 5
+            raise KeyError(t)
+        dd = []
+        for r in inl:
+            try:
+                if all(bool(ev_term(T.of(t), atoms)) == o
+                       for t, o in cfg.necessary_conditions(r)
+                       if inside(t, lp)):
+                    dd.append(r)
+            except (EvUnknown, KeyError):
+                pass
+        why = ("in the loop's first pass (the file's second line, index "
+               f"{START or 0}) a DefaultDirection line is not rejected: "
+               f"{[cfg.conditions(r) for r in inl]}")
     ctx.check(len(dd) >= 1, "C19b-default-direction-invalid", f,
               "a DefaultDirection second line makes the file invalid",
-              "no rejection of a DefaultDirection line", node=f.node)
-    # second line: chained into the loop, or compared on its own
+              why, node=f.node)
+    # second line: seen by the loop, chained into it, or compared on its own
     second = [r for r in falses if not inside(r, lp) and any(
         isinstance(c, tuple) and mismatch(c, W_HDR, W_HDR)
         for c in conds(r))]
-    ctx.check(IT == CHAIN or len(second) >= 1, "C19b-second-line-checked", f,
+    ctx.check(IT == CHAIN or n_next == 1 or len(second) >= 1,
+              "C19b-second-line-checked", f,
               "the second line's width is compared with the header's",
               "second line not checked", node=f.node)
 
